@@ -27,6 +27,17 @@
 (*               TxWrite    next tx.Put / tx.Delete on the tx's private copy *)
 (*               TxFail     that write (or the commit) fails -> error ->    *)
 (*                          DoUpdate's deferred Rollback                    *)
+(*               TxPanic    the update function panics after k writes       *)
+(*                          (k = 0..n: before any write, between two        *)
+(*                          writes, after the last one) and the caller      *)
+(*                          recovers: DoUpdate's deferred Rollback runs     *)
+(*                          while the panic unwinds.  Rule: a transaction   *)
+(*                          whose function did not return nil leaves NO     *)
+(*                          trace, for error returns and panics alike.      *)
+(*                          PanicCommits = TRUE is the variant "one deferred *)
+(*                          closure that commits unless err != nil" (err is *)
+(*                          still nil while a panic unwinds): kept to show  *)
+(*                          FailedOpLeavesNoTrace is not vacuous.           *)
 (*               Commit     all writes done -> tx.Commit                   *)
 (*               Reopen     close + open of the file (an open tx is lost)  *)
 (*             Reads (Get, List, ReverseList with DoListFunc pagination)   *)
@@ -45,7 +56,8 @@ CONSTANTS
     TxGrid,         \* set of list queries evaluated inside open transactions
     JoinCollapse,   \* BOOLEAN, see above
     NoLimitRaw,     \* BOOLEAN, see above
-    Faults,         \* BOOLEAN: TxFail enabled
+    Faults,         \* BOOLEAN: TxFail / TxPanic enabled
+    PanicCommits,   \* BOOLEAN, see above (FALSE = the code: panic => rollback)
     MaxTxOps        \* operations grouped in one store.Update transaction
 
 IDs  == { IdOrder[i] : i \in DOMAIN IdOrder }
@@ -277,6 +289,12 @@ TxFail ==                \* the next tx.Put/tx.Delete fails, or (pend = <<>>) tx
     /\ open' = FALSE /\ tx' = <<>> /\ pend' = <<>> /\ cur' = NoOp /\ res' = "err"   \* deferred tx.Rollback()
     /\ UNCHANGED <<kv, objs>>
 
+TxPanic ==               \* the update function panics (any point while the tx is open), recovered by the caller
+    /\ Faults /\ open
+    /\ open' = FALSE /\ tx' = <<>> /\ pend' = <<>> /\ cur' = NoOp /\ res' = "panic"
+    /\ kv' = IF PanicCommits THEN tx ELSE kv       \* deferred tx.Rollback() during unwinding
+    /\ UNCHANGED objs
+
 Commit ==
     /\ open /\ pend = <<>>
     /\ kv' = tx /\ open' = FALSE /\ tx' = <<>> /\ cur' = NoOp /\ res' = "ok"
@@ -287,7 +305,7 @@ Reopen ==
     /\ open' = FALSE /\ tx' = <<>> /\ pend' = <<>> /\ cur' = NoOp /\ res' = "reopen"
     /\ UNCHANGED <<kv, objs>>
 
-Next == (\E op \in Ops : Begin(op) \/ Continue(op)) \/ TxWrite \/ TxFail \/ Commit \/ Reopen
+Next == (\E op \in Ops : Begin(op) \/ Continue(op)) \/ TxWrite \/ TxFail \/ TxPanic \/ Commit \/ Reopen
 Spec == Init /\ [][Next]_vars
 
 (* ------------------------------ properties ----------------------------- *)
@@ -295,7 +313,7 @@ ObjVal == { None } \cup { <<Obj(id, a, v)>> : id \in IDs, a \in Vals, v \in Payl
 TypeOK ==
     /\ objs \in [IDs -> ObjVal]
     /\ \A id \in IDs : objs[id] # None => objs[id][1].id = id
-    /\ res \in {"init", "busy", "ok", "exists", "noexist", "err", "reopen"}
+    /\ res \in {"init", "busy", "ok", "exists", "noexist", "err", "panic", "reopen"}
     /\ open \in BOOLEAN /\ (~open => (tx = <<>> /\ pend = <<>> /\ cur = NoOp))
 
 Idle == ~open
@@ -323,7 +341,7 @@ ListIsSlice == Idle =>
 (* a rejected or failed operation leaves kv (and hence every read) as it was      *)
 FailedOpLeavesNoTrace ==
     [][ /\ (kv' # kv => (open /\ pend = <<>> /\ kv' = tx /\ res' = "ok"))
-        /\ (res' \in {"err", "exists", "noexist"} => (kv' = kv /\ objs' = objs)) ]_vars
+        /\ (res' \in {"err", "panic", "exists", "noexist"} => (kv' = kv /\ objs' = objs)) ]_vars
 
 (* reopening yields the same contents *)
 ReopenSame == [][ res' = "reopen" => (kv' = kv /\ objs' = objs) ]_vars
